@@ -133,7 +133,7 @@ func prefixOf(d digest.Digest) (p [8]byte) {
 
 func accessEngine(w *run.Worker) {
 	ctx := context.Background()
-	w.Cases("access", w.N(1500, 60000), func(c *run.Case) {
+	w.Cases("access", w.N(1500, 50000), func(c *run.Case) {
 		r := caseRng(w, c)
 		n := r.Pick(1, 2, 2, 3, 3, 4, 5, 6, 8, 12)
 		base := genMap(r, n, r.Pick(0, 2, 3, 4, 5, 6), nil)
